@@ -12,6 +12,7 @@ DECIDING = ["O1:negativity", "O1:log_negativity", "O1:entanglement_of_formation"
 RULE = ("bipartite pure states |psi> = sum s_i u_i (x) v_i with Haar local bases and planted Schmidt coefficients (every rank, generic and degenerate), local "
         "dimensions 2..4 incl. unequal, vector (1-D / column) and density-matrix input, dim as list / scalar / omitted; mixed states of the same sizes for the "
         "invariance statements; operators for the S(k) norm; signature (monitor, dA, dB, rank, input form, dim form); non-trivial when dA != dB or rank > 1")
+THOROUGH_REPEAT = 2  # the thorough tier runs its randomised case kinds this many times (new inputs each time)
 ASSUMPTIONS = [
     "closed forms from the planted Schmidt coefficients, tolerance 1e-7 (1e-6 where eigenvalues of rank-deficient matrices enter logarithms)",
     "S(k) operator norm: the true value is not computable; decided are lower <= upper, upper >= every |<w|X|v>| found by sampling and alternating optimisation over "
